@@ -16,7 +16,8 @@ import traceback
 from typing import Any, Callable, Iterable
 
 ROOT = os.path.dirname(os.path.dirname(os.path.abspath(__file__)))
-EVIDENCE_DIR = os.path.join(ROOT, "evidence")
+# VERIF_SCRATCH_EVIDENCE=1: experiments against a mutated tree must not overwrite the committed evidence files
+EVIDENCE_DIR = os.path.join(ROOT, "evidence") if not os.environ.get("VERIF_SCRATCH_EVIDENCE") else "/dev/shm/verif-scratch-evidence"
 REPLAY_DIR = os.path.join(ROOT, "replays")
 FINDINGS_FILE = os.path.join(ROOT, "known_findings.txt")
 EVIDENCE_SCHEMA = "/root/.vp/EVIDENCE.schema.json"
